@@ -16,8 +16,8 @@ def build_class(it, st: ast.ClassDef, fr):
         elif isinstance(v, ExtVal):
             stub = ClassVal(v.name, [it.e.bclasses["object"]], builtin=True)
             bases.append(stub)
-        elif type(v).__name__ == "Builtin" and v.name in it.e.bclasses:
-            bases.append(it.e.bclasses[v.name])
+        elif type(v).__name__ == "Builtin" and v.name.split(".")[-1] in it.e.bclasses:
+            bases.append(it.e.bclasses[v.name.split(".")[-1]])
         else:
             # generic alias results (Generic[T] evaluates to the ClassVal itself) or unknown
             if isinstance(v, tuple) and v and v[0] == "union":
